@@ -144,6 +144,9 @@ func RunCheck(propFile, tier string, only string, verbose bool) int {
 		if ts.Funcs != "" {
 			funcsRe = ts.Funcs
 		}
+		if ts.Funcs == "-" {
+			continue // group not part of this tier
+		}
 		if only != "" {
 			funcsRe = only
 		}
@@ -732,6 +735,10 @@ func (r *replayer) replay(ob *Obligation, cexPath string) (bool, string) {
 		}
 		if strings.HasPrefix(ob.Label, "no-uncaught-panic") {
 			if strings.HasPrefix(line, "VERIF-PANIC "+ob.Harness) {
+				// the native panic must be the one the symbolic run saw (when its message is a concrete string)
+				if m := panicMsgRe.FindStringSubmatch(ob.Label); m != nil && !strings.Contains(line, m[1]) {
+					return false, s
+				}
 				return true, s
 			}
 			continue
@@ -742,6 +749,8 @@ func (r *replayer) replay(ob *Obligation, cexPath string) (bool, string) {
 	}
 	return false, s
 }
+
+var panicMsgRe = regexp.MustCompile(`\("([^"]{4,})"\)`)
 
 var _ = big.NewInt
 
